@@ -27,7 +27,7 @@ ASSUMPTIONS = [
 REQUIRED_CLASSES = ["view-then-op", "empty-row", "unequal-rows", "single-row", "setitem", "concat", "compare-array", "split-join", "negative-index",
                     "empty-selection", "two-dimensional", "fancy-columns-then-ravel", "built-from-encoded-rows",
                     "str-equal-of-two-ragged-arrays", "numpy-array-function-on-flat-array",
-                    "split-on-a-list-of-letters"]
+                    "split-on-a-list-of-letters", "join-of-encoded-rows"]
 BOUNDS = {"quick": "1500 programs of up to 12 steps for each of 4 encodings, lists of up to 6 strings of length up to 8",
           "thorough": "12000 programs of up to 30 steps per encoding, lists of up to 12 strings of length up to 20"}
 BUDGET_S = {"quick": 200, "thorough": 1500}
@@ -177,10 +177,18 @@ def run(case, on_step=None):
                 elif name == "ravel":
                     push(R.ravel(), "".join(M), op)
                 elif name == "join":
-                    if case["enc"] != "ascii" or n == 0:
+                    if n == 0:
                         continue
-                    sep = op.get("sep", ",")
-                    push(strops.join(R, sep=sep), sep.join(M), op)
+                    if case["enc"] == "ascii" and op.get("sep_k") is None:
+                        sep = op.get("sep", ",")
+                    elif op.get("sep_k") is not None:
+                        sep = alphabet[op["sep_k"] % len(alphabet)]      # a letter of the operand's own alphabet as separator
+                    else:
+                        continue
+                    if op.get("keep_last"):
+                        push(strops.join(R, sep=sep, keep_last=True), sep.join(M) + sep, op)
+                    else:
+                        push(strops.join(R, sep=sep), sep.join(M), op)
                 elif name == "str_equal" and op.get("other") == 3:
                     # two ragged operands: the same rows, some with the last character changed, some one character shorter; the second operand
                     # is either in the operand's encoding or still plain text (as_encoded_array of a list of str)
@@ -425,6 +433,8 @@ def classify(case):
         cl.append("empty-selection")
     if "from_rows" in names:
         cl.append("built-from-encoded-rows")
+    if case["enc"] != "ascii" and any(op["op"] == "join" and op.get("sep_k") is not None for op in prog):
+        cl.append("join-of-encoded-rows")
     if any(op["op"] == "split" and op.get("seps") and not op.get("as_str") for op in prog):
         cl.append("split-on-a-list-of-letters")
     if any(op["op"] in ("f_where", "f_append", "f_insert", "f_full_like", "f_windows") for op in prog):
@@ -468,6 +478,7 @@ def op_strategy(with_matrix=False):
         st.builds(lambda s: {"op": "ravel", "src": s}, src),
         st.builds(lambda s, c: {"op": "from_rows", "src": s, "compare": int(c)}, src, st.booleans()),
         st.builds(lambda s, p: {"op": "join", "src": s, "sep": p}, src, st.sampled_from([",", ";", "\t"])),
+        st.builds(lambda s, k, kl: {"op": "join", "src": s, "sep_k": k, "keep_last": int(kl)}, src, st.integers(0, 25), st.booleans()),
         st.builds(lambda s, i, o: {"op": "str_equal", "src": s, "i": i, "other": o}, src, st.integers(0, 20), st.sampled_from([0, 1, 2, 2, 3, 3])),
         st.builds(lambda s, j, c: {"op": "set_cell", "src": s, "j": j, "c": c}, src, st.integers(0, 20), st.integers(0, 25)),
         st.builds(lambda s, i, c: {"op": "set_row", "src": s, "i": i, "c": c}, src, st.integers(0, 30), st.integers(0, 25)),
